@@ -34,4 +34,17 @@ def forEach {α σ : Type} : List α → σ → (α → σ → R σ) → R σ
     | .panic m => .panic m
     | .ok s' => forEach xs s' f
 
+/-- `for x in <iterator> { body }`: the iterator's `next` and the loop body take turns (at most `fuel`
+items; the iterators of this crate consume at least one byte per item) -/
+def forIter {ι α σ : Type} (next : ι → R (ι × Option α)) : Nat → ι → σ → (α → σ → R σ) → R σ
+  | 0, _, s, _ => .ok s
+  | fuel+1, it, s, f =>
+    match next it with
+    | .panic m => .panic m
+    | .ok (it', none) => .ok s
+    | .ok (it', some x) =>
+      match f x s with
+      | .panic m => .panic m
+      | .ok s' => forIter next fuel it' s' f
+
 end Ts.StmtVec
